@@ -10,6 +10,7 @@
 EXTENDS Encryption
 
 CONSTANTS PdfSweep,        \* "diag" | "full": how many plaintext-length layouts per empty-password PDF
+          OdfSweep,        \* "star" | "full": how many manifest spellings (encoding x DOCTYPE x prolog x attribute order)
           GenKinds,        \* subset of Kinds to enumerate
           MaxRecs,         \* xls: record sequences up to this length
           MaxEntries,      \* odf: manifest entries up to this length
@@ -22,10 +23,21 @@ OoxmlU == { [kind |-> "ooxml", wrap |-> "zip", names |-> {}] }
           \cup { [kind |-> "ooxml", wrap |-> "ole", names |-> n] : n \in SUBSET OleNames }
 PptU   == { [kind |-> "ppt", names |-> n, token |-> t] : n \in SUBSET PptNames, t \in PptTokens }
 XlsU   == { [kind |-> "xls", stream |-> s, recs |-> r] : s \in XlsStreams, r \in SeqsUpTo(RecKinds, MaxRecs) }
-DocU   == { [kind |-> "doc", fEncrypted |-> e, fObfuscated |-> o] : e \in BOOLEAN, o \in BOOLEAN }
+DocU   == { [kind |-> "doc", magic |-> m, fEncrypted |-> e, fObfuscated |-> o] :
+              m \in DocMagics, e \in BOOLEAN, o \in BOOLEAN }
 OdfEntry == [name : OdfNames, ed : BOOLEAN]
-OdfU   == { [kind |-> "odf", enc |-> e, prefix |-> p, entries |-> s] :
-              e \in {"utf8", "utf16"}, p \in {"manifest", "m"}, s \in NonEmptySeqs(OdfEntry, MaxEntries) }
+OdfVariant == [enc : OdfEncs, doctype : OdfDoctypes, prolog : OdfProlog, order : OdfOrders]
+DefaultV(e) == [enc |-> e, doctype |-> "none", prolog |-> "none", order |-> "path-first"]
+Differences(v) == Cardinality({ f \in {"enc", "doctype", "prolog", "order"} : v[f] # DefaultV("utf8")[f] })
+StarVariants == { v \in OdfVariant : Differences(v) <= 1 }         \* the default and every single-dimension change
+Odf(v, p, s) == [kind |-> "odf", enc |-> v.enc, prefix |-> p, doctype |-> v.doctype, prolog |-> v.prolog,
+                 order |-> v.order, entries |-> s]
+\* the spellings are swept over one-entry manifests: encrypted / plain x ordinary / tricky file name
+SweepEntries == { <<[name |-> n, ed |-> e]>> : n \in {"content.xml", "Pictures/encryption-data.png"}, e \in BOOLEAN }
+OdfU   == { Odf(DefaultV(e), p, s) : e \in {"utf8", "utf16"}, p \in {"manifest", "m"},
+                                      s \in NonEmptySeqs(OdfEntry, MaxEntries) }
+          \cup { Odf(v, p, s) : v \in (IF OdfSweep = "full" THEN OdfVariant ELSE StarVariants),
+                                p \in {"manifest", "m"}, s \in SweepEntries }
 \* plaintext-length layouts (see Encryption.tla): all 18 ("full"), or the diagonal + two mixed ones per compression
 \* mode ("diag"); AES-256 revision 6 (whose pure-Python key derivation costs seconds per open) gets the diagonal set
 \* in the "full" sweep and two layouts in the "diag" sweep
